@@ -690,7 +690,11 @@ func (g *functionGenerator) genCall(call *ssa.CallCommon) (insts []wat.Inst, ret
 		}
 		callee := call.StaticCallee()
 		if callee.Parent() != nil {
-			g.module.AddFunc(newFunctionGenerator(g.prog, g.module, g.tLib).genFunction(callee))
+			// 匿名函数可能已经在取函数值时生成过, 重复生成会重复注册其内部闭包的类型
+			callee_name, _ := wir.GetFnMangleName(callee, g.prog.Manifest.MainPkg)
+			if g.module.FindFunc(callee_name) == nil {
+				g.module.AddFunc(newFunctionGenerator(g.prog, g.module, g.tLib).genFunction(callee))
+			}
 		}
 
 		if len(callee.LinkName()) > 0 {
@@ -1463,7 +1467,10 @@ func (g *functionGenerator) genMakeDefer(inst *ssa.Defer) (insts []wat.Inst) {
 	case *ssa.Function:
 		callee := inst.Call.StaticCallee()
 		if callee.Parent() != nil {
-			g.module.AddFunc(newFunctionGenerator(g.prog, g.module, g.tLib).genFunction(callee))
+			callee_name, _ := wir.GetFnMangleName(callee, g.prog.Manifest.MainPkg)
+			if g.module.FindFunc(callee_name) == nil {
+				g.module.AddFunc(newFunctionGenerator(g.prog, g.module, g.tLib).genFunction(callee))
+			}
 		}
 
 		for i, v := range inst.Call.Args {
